@@ -30,8 +30,9 @@ DOCUMENTED = {"ParserError", "ConverterError", "XmlContextError", "LEAK:XmlHandl
 def gen_tree_faults(rng, tier):
     """valid documents and EVERY fault kind on each of them (model: bind.parse, real: NodeParser
     driven by EventsHandler)"""
-    n_uni = n_cases(tier, 28, 700)
-    for u, ctx, desc, tree, kind in documents(rng, tier, n_uni, 2, mutate=False):
+    n_uni = n_cases(tier, 20, 500)
+    docs = itertools.chain(documents(rng, tier, n_uni, 2, mutate=False), focused_documents(rng, n_cases(tier, 15, 300), 2))
+    for u, ctx, desc, tree, kind in docs:
         cfgs = [rng.choice(CONFIGS) for _ in range(3)]
         yield {"ctx": ctx, "tree": tree, "clazz": "Root", "config": cfgs[0], "desc": desc, "_uni": u.modname, "_kind": "valid"}
         for k, t2 in F.tree_fault_stream(rng, tree, 1 if tier == "quick" else 3):
@@ -39,6 +40,42 @@ def gen_tree_faults(rng, tier):
         # the wrong target class for a valid document
         other = rng.choice([c["name"] for c in desc["classes"]])
         yield {"ctx": ctx, "tree": tree, "clazz": other, "config": cfgs[1], "desc": desc, "_uni": u.modname, "_kind": "wrong_class"}
+
+
+FOCUS = [
+    {"child", "wildcard", "elem", "list", "attr", "nillable", "inherit", "ns"},          # children next to a wildcard
+    {"child", "anytype", "elem", "list", "attr", "nillable", "inherit", "ns", "qname"},  # xsi:type driven nodes
+    {"text", "attr", "attributes", "tokens", "fixed", "qname", "ns", "nillable"},        # simple content
+    {"child", "wrapper", "list", "elem", "sequence", "compound", "ns"},                  # wrappers, sequences, compound fields
+    {"child", "wildcard", "mixed", "elem", "list", "ns"},                                # mixed content
+]
+
+
+def focused_documents(rng, n_uni, per_uni):
+    """documents of universes restricted to a few field kinds, so that rare combinations
+    (a class child next to a wildcard, …) are met on every run"""
+    for i in range(n_uni):
+        u, desc, ctx = new_universe(rng, FOCUS[i % len(FOCUS)])
+        for _ in range(per_uni):
+            try:
+                obj = G.gen_instance(rng, u, "Root")
+                xml = G.real_serialize(u, obj, writer=rng.choice(["native", "lxml"]))
+                tree = G.xml_tree(xml.encode())
+            except Exception:  # noqa: BLE001
+                continue
+            yield u, ctx, desc, tree, "valid"
+
+
+def cmp_tree(mo, io, a):
+    """exact agreement; a difference is also accepted when it disappears once the real context
+    keys its metadata cache by (class, parent namespace) — then it is the first-build-wins cache
+    of XmlContext (property C14) and not the parser that differs from the model.  The outcome
+    class (value / which error) must agree in any case."""
+    if cmp_parse(mo, io, a):
+        return True
+    if ("ok" in mo) != ("ok" in io) or mo.get("err") != io.get("err"):
+        return False
+    return mo == F.real_parse_tree_per_ns(uni_of(a), a["clazz"], a["tree"], a["config"])
 
 
 def classify_outcome(a, o):
@@ -274,7 +311,7 @@ def cmp_dict(mo, io, a):
 
 
 CORRS = [
-    Corr("bind.parse", gen_tree_faults, impl_parse, compare=cmp_parse, classify=classify_outcome,
+    Corr("bind.parse", gen_tree_faults, impl_parse, compare=cmp_tree, classify=classify_outcome,
          describe="NodeParser(EventsHandler) vs model on valid documents and every tree-level fault kind"),
     Corr("fault.document", gen_doc_native, impl_doc_native, compare=cmp_doc, classify=classify_outcome,
          describe="XmlParser(XmlEventHandler).from_bytes vs model(parseDocument) on byte-level faults; tokenizer outcome from libxml2 strict"),
